@@ -2,11 +2,11 @@ package main
 
 import (
 	"fmt"
-	"os"
 	"go/ast"
 	"go/parser"
 	"go/token"
 	"go/types"
+	"os"
 
 	"golang.org/x/tools/go/ssa"
 	"golang.org/x/tools/go/ssa/ssautil"
